@@ -569,6 +569,41 @@ example : (Matrix.of (scaleCols (1 : Matrix (Fin 2) (Fin 2) ℤ) ![2, 3]) * (Mat
 example : repeatShape [2, 1] [3, 2] = [6, 2] ∧ repeatIdx [2, 1] [5, 1] = [1, 0] ∧ repeatMember [2, 1] [3, 2] 11 = 1 ∧
     repeatShape [2] [3, 1] = [3, 2] ∧ repeatMember [2] [3, 1] 5 = 1 := by decide
 
+/-! ### ConstantMul inverse root (`root_inv_decomposition` override, /repo c4c33aa): `c^{-1/2} · R₀`. -/
+
+/-- **ConstantMul inverse root**: with `isc = c^{-1/2}` (`isc² c = 1`) and `R₀ R₀ᵀ = A⁻¹` the scaled inverse root
+`isc · R₀` satisfies `R Rᵀ = isc² · A⁻¹`, and that matrix is the inverse of `c · A`; all sizes and root widths. -/
+theorem constMul_rootInv_cov {n m : Nat} (isc c : α) (hc : isc * isc * c = 1)
+    (R0 : Matrix (Fin n) (Fin m) α) (A Ainv : Matrix (Fin n) (Fin n) α) (hR : R0 * R0ᵀ = Ainv) (hA : A * Ainv = 1) :
+    (Matrix.of (constMulRootInv isc R0) * (Matrix.of (constMulRootInv isc R0))ᵀ : Matrix _ _ α) = (isc * isc) • Ainv ∧
+    (c • A) * ((isc * isc) • Ainv) = 1 := by
+  refine ⟨constMul_cov isc (isc * isc) rfl R0 Ainv hR, ?_⟩
+  have hk : c * (isc * isc) = 1 := by rw [mul_comm]; exact hc
+  rw [Matrix.smul_mul, Matrix.mul_smul, smul_smul, hA, hk, one_smul]
+
+/-- **The cached root and inverse root of a ConstantMul stay paired**: if the base pair is paired (`R₀ᵀ R = 1`) and
+`√c · c^{-1/2} = 1`, then `(c^{-1/2} R₀)ᵀ (√c R) = 1` — the assumption `add_low_rank` / `cat_rows` make when they combine the
+two (the defect fixed by c4c33aa was that this failed after `diagonalization()`). -/
+theorem constMul_rootInv_paired {n m : Nat} (sc isc : α) (h : sc * isc = 1)
+    (R R0 : Matrix (Fin n) (Fin m) α) (hp : R0ᵀ * R = 1) :
+    ((Matrix.of (constMulRootInv isc R0))ᵀ * Matrix.of (constMulRoot sc R) : Matrix _ _ α) = 1 := by
+  ext i j
+  have hij := congrFun (congrFun hp i) j
+  simp only [Matrix.mul_apply, Matrix.transpose_apply] at hij
+  simp only [Matrix.mul_apply, Matrix.transpose_apply, Matrix.of_apply, constMulRootInv, constMulRoot]
+  calc ∑ l, R0 l i * isc * (R l j * sc) = (∑ l, R0 l i * R l j) * (sc * isc) := by
+        rw [Finset.sum_mul]; exact Finset.sum_congr rfl fun l _ => by ring
+    _ = (1 : Matrix (Fin m) (Fin m) α) i j := by rw [hij, h, mul_one]
+
+/-- Non-vacuity: `c = 4`, `c^{-1/2} = 1/2`, `A = 9`, `R₀ = 1/3` (1×1): inverse root `1/6`, `(1/6)² = 1/36 = (4·9)⁻¹`. -/
+example : (Matrix.of (constMulRootInv (1 / 2 : ℚ) (Matrix.of fun (_ _ : Fin 1) => (1 / 3 : ℚ)))
+      * (Matrix.of (constMulRootInv (1 / 2 : ℚ) (Matrix.of fun (_ _ : Fin 1) => (1 / 3 : ℚ))))ᵀ : Matrix _ _ ℚ)
+        = ((1 / 2 : ℚ) * (1 / 2)) • (Matrix.of fun _ _ => (1 / 9 : ℚ)) ∧
+      ((4 : ℚ) • (Matrix.of fun (_ _ : Fin 1) => (9 : ℚ))) * (((1 / 2 : ℚ) * (1 / 2)) • (Matrix.of fun _ _ => (1 / 9 : ℚ))) = 1 :=
+  constMul_rootInv_cov (1 / 2) 4 (by norm_num) _ (Matrix.of fun _ _ => 9) _
+    (by ext i j; simp [Matrix.mul_apply]; norm_num)
+    (by ext i j; simp [Matrix.mul_apply, Matrix.one_apply, Subsingleton.elim i j])
+
 /-! ### Translator facts: the sampler / root source text the model was written against (regenerated from /repo by
 `harness/extract/c18_samplers.py` on every run). -/
 
